@@ -50,3 +50,69 @@ package nodeconf
 //@ func (*nodeConf).Partition
 //@   requires c != nil && c.chash != nil
 //@   ensures [same_key] part == c.chash.GetPartition(ReplKey(spaceId))
+
+// ---------------------------------------------------------------------------------------------
+// C18: which nodes are handed to the ring. сonfigurationToNodeConf (the first letter of the name is
+// the Cyrillic es the source uses) builds the sync-node ring with the configured replication factor
+// and partition count and adds exactly the tree-typed nodes of the configuration to it, in
+// configuration order; the file ring gets exactly the fileV2-typed nodes. What the ring is given is
+// recorded in ghost state by the (assumed) contracts of the go-chash constructor and AddMembers.
+//
+//@ ghost ringRF (Array Iface Int) stable
+//@ ghost ringPC (Array Iface Int) stable
+//@ ghost ringAdded (Array Iface Slice) stable
+//@ ghost ringAddCalls (Array Iface Int) stable
+//@ func github.com/anyproto/go-chash.New
+//@   modifies nothing
+//@   posits [ring_or_error] (result1 == nil) != (result0 == nil)
+//@   posits [new_ring]      result0 != nil ==> fresh(ifaceptr(result0))
+//@   sets ringAddCalls = upd(ringAddCalls, result0, 0)
+//@   sets ringRF = upd(ringRF, result0, c.ReplicationFactor)
+//@   sets ringPC = upd(ringPC, result0, c.PartitionCount)
+//@ func iface chash.CHash.AddMembers
+//@   modifies nothing
+//@   sets ringAdded = upd(ringAdded, recv, members)
+//@   sets ringAddCalls = upd(ringAddCalls, recv, sel(ringAddCalls, recv) + 1)
+
+// HasType: membership in the node's type list.
+//@ func (Node).HasType
+//@   modifies nothing
+//@   ensures [iff_listed] result <==> (exists k int :: 0 <= k && k < len(n.Types) && n.Types[k] == t)
+//@   loop 0:
+//@     invariant -1 <= rangeindex && rangeindex < len(n.Types)
+//@     invariant forall k int :: 0 <= k && k <= rangeindex ==> n.Types[k] != t
+//@     decreases len(n.Types) - rangeindex
+
+//@ def added(r) = cast(sel(ringAdded, r), "[]chash.Member")
+//@ def listed(n, t) = exists k int :: 0 <= k && k < len(n.Types) && n.Types[k] == t
+
+//@ func сonfigurationToNodeConf
+//@   ensures [ring_or_error]      err == nil ==> nc != nil && nc.chash != nil && nc.chashFileV2 != nil && nc.chash != nc.chashFileV2
+//@   ensures [ring_parameters]    err == nil ==> sel(ringRF, nc.chash) == ReplicationFactor && sel(ringPC, nc.chash) == PartitionCount
+//@   ensures [added_once]         err == nil ==> sel(ringAddCalls, nc.chash) == 1
+//@   ensures [only_tree_nodes]    err == nil ==> (forall k int :: 0 <= k && k < len(added(nc.chash)) ==> (exists j int :: 0 <= j && j < len(c.Nodes) && old(listed(c.Nodes[j], NodeTypeTree)) && added(nc.chash)[k] == box(old(c.Nodes[j]))))
+//@   ensures [every_tree_node]    err == nil ==> (forall j int :: 0 <= j && j < len(c.Nodes) && old(listed(c.Nodes[j], NodeTypeTree)) ==> (exists k int :: 0 <= k && k < len(added(nc.chash)) && added(nc.chash)[k] == box(old(c.Nodes[j]))))
+//@   ensures [no_more_than_nodes] err == nil ==> len(added(nc.chash)) <= len(c.Nodes)
+//@   loop 0:
+//@     invariant -1 <= rangeindex && rangeindex < len(c.Nodes)
+//@     invariant nc != nil && rootof(nc) > 0
+//@     invariant nc.chash != nil && nc.chashFileV2 != nil
+//@     invariant nc.chash != nc.chashFileV2
+//@     invariant nc.addrs != nil
+//@     invariant nc.allMembers == nil || rootof(nc.allMembers) > 0
+//@     invariant nc.consensusPeers == nil || rootof(nc.consensusPeers) > 0
+//@     invariant nc.filePeers == nil || rootof(nc.filePeers) > 0
+//@     invariant nc.fileV2Peers == nil || rootof(nc.fileV2Peers) > 0
+//@     invariant nc.coordinatorPeers == nil || rootof(nc.coordinatorPeers) > 0
+//@     invariant nc.namingNodePeers == nil || rootof(nc.namingNodePeers) > 0
+//@     invariant nc.paymentProcessingNodePeers == nil || rootof(nc.paymentProcessingNodePeers) > 0
+//@     invariant rootof(fileV2Members) > 0 && rootof(fileV2Members) != rootof(members)
+//@     invariant rootof(members) > 0 && rootof(members) != rootof(nc) && len(members) <= rangeindex + 1
+//@     invariant sel(ringRF, nc.chash) == ReplicationFactor
+//@     invariant sel(ringPC, nc.chash) == PartitionCount
+//@     invariant sel(ringAddCalls, nc.chash) == 0
+//@     invariant forall j int :: 0 <= j && j < len(c.Nodes) ==> c.Nodes[j] == old(c.Nodes[j])
+//@     invariant forall j int, i int :: 0 <= j && j < len(c.Nodes) && 0 <= i && i < len(c.Nodes[j].Types) ==> c.Nodes[j].Types[i] == old(c.Nodes[j].Types[i])
+//@     invariant forall k int :: 0 <= k && k < len(members) ==> (exists j int :: 0 <= j && j <= rangeindex && old(listed(c.Nodes[j], NodeTypeTree)) && members[k] == box(old(c.Nodes[j])))
+//@     invariant forall j int :: 0 <= j && j <= rangeindex && old(listed(c.Nodes[j], NodeTypeTree)) ==> (exists k int :: 0 <= k && k < len(members) && members[k] == box(old(c.Nodes[j])))
+//@     decreases len(c.Nodes) - rangeindex
